@@ -117,7 +117,7 @@ func persistEquiv(c *ctx, sb *zap.SegmentBase, spec sx.V, ndocs uint64, mode uin
 func checkC04(c *ctx) {
 	c.Rule = "batches of the C01/C02/C03/C12 generators (incl. synonym documents, stored arrays, >64KB values, _id lengths up to 65536 incl. exact multiples of 32 KiB) x chunk modes; for each: Persist bytes = WriteTo bytes; the model decodes the 52-byte footer and recomputes CRC-32 with the Gallina CRC; the persisted+opened segment's complete dump = the in-memory segment's dump = extracted spec_of_batch; plus one segment larger than 2 MiB (offsets beyond 2^21) per run; many segments are built in one process so that pooled builder state is reused; thesauri may be named like ordinary doc-value fields (data in two sections); 8 goroutines persist / WriteTo different segments at the same time and every image must equal the one the segment produces alone; non-trivial = >= 2 docs and >= 3 tokens"
 	c.Assumptions = append(c.Assumptions, "mmap/open are OS behaviour; vectors are covered by C14 (vectors tag)")
-	n := c.n(150, 3000)
+	n := c.n(100, 3000)
 	saved := zap.LegacyChunkMode
 	defer func() { zap.LegacyChunkMode = saved }()
 	for i := 0; i < n; i++ {
@@ -158,6 +158,33 @@ func checkC04(c *ctx) {
 				}
 			}
 			c.Violation(fmt.Sprintf("C04 persist / open equivalence\n%s\nchunkMode=%d LegacyChunkMode=%d\nbatch (shrunk): %s\nreadable: %s", clip(msg), mode, zap.LegacyChunkMode, small.Sx().String(), clip(small.Sx().Pretty())), false)
+			return
+		}
+	}
+	// batches with 127, 128, 129 and 300 distinct field names (the field count and every field id
+	// cross the one-byte varint)
+	for _, nf := range []int{127, 128, 129, 300} {
+		var b zh.Batch
+		for d := 0; d < 2; d++ {
+			doc := zh.Doc{Fields: []zh.Field{zh.IDField(fmt.Sprintf("f%03d", d))}}
+			for f := 0; f < nf-1; f++ {
+				if (f+d)%3 == 0 && d == 1 {
+					continue
+				}
+				doc.Fields = append(doc.Fields, zh.Field{Name: fmt.Sprintf("n%03d", f), Len: 1, DV: f%7 == 0, Stored: f%5 == 0, Typ: 't', Val: []byte{byte('a' + f%26)},
+					Toks: []zh.Tok{{Term: fmt.Sprintf("t%d", f%4), Freq: 1}}})
+			}
+			b = append(b, doc)
+		}
+		sb, _, spec, err := buildObs(c, b, 1026)
+		c.Case(fmt.Sprintf("fields-%d", nf), true)
+		c.Count("many_field_batches")
+		if err != nil {
+			c.Violation(fmt.Sprintf("C04 build of a batch with %d field names failed: %v", nf, err), false)
+			return
+		}
+		if bad := persistEquiv(c, sb, spec, uint64(len(b)), 1026, false); bad != "" {
+			c.Violation(fmt.Sprintf("C04 persist / open equivalence on a batch with %d distinct field names (2 documents)\n%s", nf, clip(bad)), false)
 			return
 		}
 	}
